@@ -529,15 +529,17 @@ static void sss_all(int size, int n) {
 		for (i++; i < size; i++) idx[i] = idx[i - 1] + 1;
 	}
 }
+/* sss: every k-subset and (k-1)-subset; sssx (C06 extension): every subset of EVERY size 2..n (mpc_sss_key declines fewer than two shares) - supersets of a
+ * qualifying set qualify as well, smaller sets are recorded as what interpolation at 0 gives */
 static void do_sss(void) {
-	int k = atoi(vh_tok[4]), n = atoi(vh_tok[5]), err, ret = -1, i;
+	int k = atoi(vh_tok[4]), n = atoi(vh_tok[5]), err, ret = -1, i, ext = !strcmp(vh_tok[0], "sssx");
 	vh_bn_set(SQ, vh_tok[1]);
 	reseed(vh_tok[2]);
 	mtok(SS, vh_tok[3], SQ);
 	if (n > MAXSH) n = MAXSH;
 	for (i = 0; i < MAXSH; i++) { bn_zero(SX[i]); bn_zero(SY[i]); }
 	VH_TRY(err, ret = mpc_sss_gen(SX, SY, SS, SQ, k, n));
-	vh_begin("sss");
+	vh_begin(ext ? "sssx" : "sss");
 	vh_bn("q", SQ); vh_bn("secret", SS); vh_int("k", k); vh_int("n", n);
 	vh_int("ret", ret); vh_int("err", err);
 	bn_arr("x", SX, (ret == RLC_OK && !err) ? n : 0); bn_arr("y", SY, (ret == RLC_OK && !err) ? n : 0);
@@ -546,6 +548,7 @@ static void do_sss(void) {
 	if (ret == RLC_OK && !err) {
 		sss_all(k, n);
 		if (k - 1 >= 2) sss_all(k - 1, n);
+		if (ext) { int sz; for (sz = 2; sz <= n; sz++) if (sz != k && !(sz == k - 1 && sz >= 2)) sss_all(sz, n); }
 		if (k >= 2) {   /* one subset in descending order: the result does not depend on the order of the shares */
 			int idx[MAXSH], j;
 			for (j = 0; j < k; j++) idx[j] = n - 1 - j;
@@ -828,7 +831,7 @@ int main(int argc, char **argv) {
 		else if (!strcmp(op, "ecies")) do_ecies();
 #endif
 #if defined(WITH_MPC)
-		else if (!strcmp(op, "sss")) do_sss();
+		else if (!strcmp(op, "sss") || !strcmp(op, "sssx")) do_sss();
 		else if (!strcmp(op, "mt")) do_mt();
 #endif
 		else if (pc_dispatch(op)) { }
